@@ -555,3 +555,20 @@ def ob_snapshot_isolation(st: int, kind: int, mk: int) -> bool:
             want = dict(before)
             want[key] = ["changed"] if (kind != K_DS and mk != MK_OVERWRITE) else "changed"
             return deq(after, want)
+
+
+@obligation(quick=90, thorough=200, partitions_quick=[f"kind == {k}" for k in (2, 4)], partitions_thorough=[f"kind == {k} and o1 == {o}" for k in (2, 4) for o in range(5)],
+            what="clear() resets EVERY time: scripts [op, clear, op', clear] (the ops any of get/set/set_state/clear/edit_state) on both fresh stores "
+                 "agree with the nested-dict model and with each other after every operation — a second clear() resets as well as the first",
+            bounds={"script": "op, clear, op', clear with op, op' from 5 kinds x 3 parameterisations", "state types": "DictState, inherited typed model"})
+def ob_clear_resets_every_time(kind: int, o0: int, p0: int, o1: int, p1: int) -> bool:
+    """
+    pre: kind in (2, 4)
+    pre: 0 <= o0 <= 4 and 0 <= p0 <= 2 and (o0 != 3 or p0 == 0)
+    pre: 0 <= o1 <= 4 and 0 <= p1 <= 2 and (o1 != 3 or p1 == 0)
+    post: _
+    """
+    kind = cint(kind, 0, 4)
+    ops = [(cint(o0, 0, 4), cint(p0, 0, 2)), (3, 0), (cint(o1, 0, 4), cint(p1, 0, 2)), (3, 0)]
+    with untraced():
+        return run_script(kind, ops)
